@@ -60,6 +60,8 @@ struct Case {
     pre: u64,
     extra: u64,
     longflags: bool,
+    /// 0: `-i P -o Q`; 1: `--input P --output Q`; 2: `--input=P --output=Q`; 3: `-iP -oQ`
+    arg_form: u64,
     entropy: u64,
     dirperm: u64,
     fault: Option<FaultSpec>,
@@ -74,8 +76,12 @@ struct Case {
     rust_log: u64,
 }
 
-const NAME_STYLES: [&str; 3] = ["as-is", "two-dots", "blank-in-name"];
+const NAME_STYLES: [&str; 4] = ["as-is", "two-dots", "blank-in-name", "non-ascii-name"];
 const LINK_STYLES: [&str; 3] = ["regular files", "siblings are symlinks", "directory reached through a symlink"];
+
+fn arg_form_name(k: u64) -> &'static str {
+    ["-i P -o Q", "--output Q --input P", "--input=P --output=Q", "-oQ -iP"][k as usize % 4]
+}
 
 fn rust_log_name(k: u64) -> &'static str {
     ["(unset)", "debug", "trace"][k as usize % 3]
@@ -88,6 +94,7 @@ fn styled_start(start: &str, name_style: u64) -> String {
     match name_style {
         1 => format!("{stem}.v2.{ext}"),
         2 => format!("{stem} copy-1.{ext}"),
+        3 => format!("{stem}-sch\u{e9}ma-\u{4e16}.{ext}"),
         _ => start.to_string(),
     }
 }
@@ -98,7 +105,8 @@ fn decode_case(ch: &mut Chooser, nsets: usize) -> Case {
     let output = ch.choose("output", 4);
     let pre = ch.choose("preexisting", 8);
     let extra = ch.choose("extra_sibling", 9);
-    let longflags = ch.choose("long_flags", 2) == 1;
+    let arg_form = ch.choose("argument_form", 4);
+    let longflags = arg_form == 1;
     let entropy = ch.choose("entropy", u64::MAX);
     let dirperm = ch.choose("dirperm", u64::MAX);
     let fault = if ch.choose("faults", 2) == 1 {
@@ -111,15 +119,15 @@ fn decode_case(ch: &mut Chooser, nsets: usize) -> Case {
     } else {
         None
     };
-    let name_style = ch.choose("name_style", 3);
+    let name_style = ch.choose("name_style", 4);
     let link_style = ch.choose("link_style", 3);
     let stderr_full = ch.choose("stderr_is_dev_full", 2) == 1;
     let rust_log = ch.choose("rust_log", 3);
-    Case { input, spelling, output, pre, extra, longflags, entropy, dirperm, fault, name_style, link_style, stderr_full, rust_log }
+    Case { input, spelling, output, pre, extra, longflags, arg_form, entropy, dirperm, fault, name_style, link_style, stderr_full, rust_log }
 }
 
 fn encode_case(c: &Case) -> Vec<u64> {
-    let mut t = vec![c.input as u64, c.spelling, c.output, c.pre, c.extra, u64::from(c.longflags), c.entropy, c.dirperm];
+    let mut t = vec![c.input as u64, c.spelling, c.output, c.pre, c.extra, c.arg_form, c.entropy, c.dirperm];
     if let Some(f) = &c.fault {
         let ts = targets();
         let ti = ts.iter().position(|x| x.0 == f.sym && x.1 == f.cls).unwrap_or(0);
@@ -333,10 +341,24 @@ fn run_once(sets: &[InputSet], c: &Case, spelling: u64, expected: &Expected) -> 
     if let Some(b) = &pre_bytes {
         let _ = std::fs::write(&out_abs, b);
     }
-    let mut args = vec![if c.longflags { "--input".to_string() } else { "-i".to_string() }, spelled];
-    if let Some(o) = out_arg {
-        args.push(if c.longflags { "--output".to_string() } else { "-o".to_string() });
-        args.push(o);
+    let mut args = Vec::new();
+    let mut push_opt = |short: &str, long: &str, val: String| match c.arg_form {
+        0 => args.extend([short.to_string(), val]),
+        1 => args.extend([long.to_string(), val]),
+        2 => args.push(format!("{long}={val}")),
+        _ => args.push(format!("{short}{val}")),
+    };
+    // the output option first in half of the forms: the order of options is not part of the input either
+    if c.arg_form % 2 == 1 {
+        if let Some(o) = out_arg.clone() {
+            push_opt("-o", "--output", o);
+        }
+        push_opt("-i", "--input", spelled);
+    } else {
+        push_opt("-i", "--input", spelled);
+        if let Some(o) = out_arg.clone() {
+            push_opt("-o", "--output", o);
+        }
     }
     let before = snapshot(&top);
     let plan = PlanSpec {
@@ -530,7 +552,7 @@ fn case_json(sets: &[InputSet], c: &Case) -> Value {
         "input_set": sets[c.input].name, "stage": sets[c.input].stage, "start_file": sets[c.input].start,
         "files": sets[c.input].files.iter().map(|(n, b)| json!({"name": n, "bytes": b.len(), "hash": format!("{:016x}", simkernel::hash_bytes(b))})).collect::<Vec<_>>(),
         "spelling": SPELLINGS[c.spelling as usize], "output": OUTPUTS[c.output as usize], "preexisting_output": PRE[c.pre as usize],
-        "extra_entries": EXTRAS[c.extra as usize], "stderr": if c.stderr_full { "/dev/full" } else { "pipe" }, "RUST_LOG": rust_log_name(c.rust_log), "long_flags": c.longflags, "start_file_name": styled_start(&sets[c.input].start, c.name_style), "name_style": NAME_STYLES[c.name_style as usize], "link_style": LINK_STYLES[c.link_style as usize],
+        "extra_entries": EXTRAS[c.extra as usize], "stderr": if c.stderr_full { "/dev/full" } else { "pipe" }, "RUST_LOG": rust_log_name(c.rust_log), "argument_form": arg_form_name(c.arg_form), "start_file_name": styled_start(&sets[c.input].start, c.name_style), "name_style": NAME_STYLES[c.name_style as usize], "link_style": LINK_STYLES[c.link_style as usize],
         "entropy": format!("{:x}", c.entropy), "dirperm": c.dirperm,
         "fault": c.fault.as_ref().map(FaultSpec::describe),
     })
@@ -687,7 +709,7 @@ fn build_tapes(sets: &[InputSet], tier: &str, seed: u64) -> (Vec<Vec<u64>>, Valu
                         if !thorough && (input as u64 * 7 + spelling * 5 + output * 3 + pre + *extra) % 7 != 0 {
                             continue;
                         }
-                        let c = Case { input, spelling, output, pre, extra: *extra, longflags: (spelling + output) % 2 == 1, entropy: 0, dirperm: if *extra == 2 { 7 } else { 0 }, fault: None, name_style: ((input as u64 + spelling) % 3) * u64::from((output + pre) % 2 == 0), link_style: ((spelling + pre + *extra) % 3) * u64::from((input as u64 + output) % 2 == 1), stderr_full: (input as u64 + spelling + pre) % 5 == 0, rust_log: (spelling + output + pre) % 3 };
+                        let c = Case { input, spelling, output, pre, extra: *extra, longflags: (spelling + output) % 4 == 1, arg_form: (spelling + output) % 4, entropy: 0, dirperm: if *extra == 2 { 7 } else { 0 }, fault: None, name_style: ((input as u64 + spelling) % 4) * u64::from((output + pre) % 2 == 0), link_style: ((spelling + pre + *extra) % 3) * u64::from((input as u64 + output) % 2 == 1), stderr_full: (input as u64 + spelling + pre) % 5 == 0, rust_log: (spelling + output + pre) % 3 };
                         tapes.push(encode_case(&c));
                         n_cfg += 1;
                     }
@@ -699,24 +721,24 @@ fn build_tapes(sets: &[InputSet], tier: &str, seed: u64) -> (Vec<Vec<u64>>, Valu
     let idx_of = |name: &str| sets.iter().position(|s| s.name == name);
     let mut scen = Vec::new();
     if let Some(i) = idx_of("tempconverter") {
-        scen.push(Case { input: i, spelling: 2, output: 0, pre: 2, extra: 0, longflags: false, entropy: 0, dirperm: 0, fault: None, name_style: 0, link_style: 0, stderr_full: false, rust_log: 0 });
+        scen.push(Case { input: i, spelling: 2, output: 0, pre: 2, extra: 0, longflags: false, arg_form: 0, entropy: 0, dirperm: 0, fault: None, name_style: 0, link_style: 0, stderr_full: false, rust_log: 0 });
     }
     if let Some(i) = idx_of("chain") {
-        scen.push(Case { input: i, spelling: 1, output: 2, pre: 1, extra: 1, longflags: true, entropy: 0, dirperm: 3, fault: None, name_style: 1, link_style: 1, stderr_full: false, rust_log: 1 });
+        scen.push(Case { input: i, spelling: 1, output: 2, pre: 1, extra: 1, longflags: true, arg_form: 1, entropy: 0, dirperm: 3, fault: None, name_style: 1, link_style: 1, stderr_full: false, rust_log: 1 });
     }
     if let Some(i) = idx_of("big-cwmp") {
         // an output larger than 64 KiB: a tool that writes in chunks is failed at each of its chunks
-        scen.push(Case { input: i, spelling: 1, output: 1, pre: 2, extra: 0, longflags: false, entropy: 0, dirperm: 0, fault: None, name_style: 0, link_style: 0, stderr_full: false, rust_log: 0 });
+        scen.push(Case { input: i, spelling: 1, output: 1, pre: 2, extra: 0, longflags: false, arg_form: 0, entropy: 0, dirperm: 0, fault: None, name_style: 0, link_style: 0, stderr_full: false, rust_log: 0 });
     }
     if thorough {
         if let Some(i) = idx_of("hello") {
-            scen.push(Case { input: i, spelling: 4, output: 3, pre: 0, extra: 0, longflags: false, entropy: 0, dirperm: 0, fault: None, name_style: 0, link_style: 0, stderr_full: false, rust_log: 0 });
+            scen.push(Case { input: i, spelling: 4, output: 3, pre: 0, extra: 0, longflags: false, arg_form: 0, entropy: 0, dirperm: 0, fault: None, name_style: 0, link_style: 0, stderr_full: false, rust_log: 0 });
         }
         if let Some(i) = idx_of("malformed-sibling") {
-            scen.push(Case { input: i, spelling: 5, output: 1, pre: 2, extra: 0, longflags: false, entropy: 0, dirperm: 0, fault: None, name_style: 0, link_style: 0, stderr_full: false, rust_log: 0 });
+            scen.push(Case { input: i, spelling: 5, output: 1, pre: 2, extra: 0, longflags: false, arg_form: 0, entropy: 0, dirperm: 0, fault: None, name_style: 0, link_style: 0, stderr_full: false, rust_log: 0 });
         }
         if let Some(i) = idx_of("orders") {
-            scen.push(Case { input: i, spelling: 1, output: 0, pre: 2, extra: 3, longflags: false, entropy: 0, dirperm: 5, fault: None, name_style: 2, link_style: 2, stderr_full: true, rust_log: 2 });
+            scen.push(Case { input: i, spelling: 1, output: 0, pre: 2, extra: 3, longflags: false, arg_form: 0, entropy: 0, dirperm: 5, fault: None, name_style: 2, link_style: 2, stderr_full: true, rust_log: 2 });
         }
     }
     let mut enumerated = Vec::new();
